@@ -40,3 +40,76 @@ Theorem C09_string_long_truncated : forall s1 c junk bound,
   copy_loop (s1 ++ c :: junk) 0 bound [] 0 = (takeN (ARG_STR_MAX - 3) s1 ++ [46; 46; 46; 0], ARG_STR_MAX).
 Proof. exact copy_loop_long. Qed.
 Print Assumptions C09_string_long_truncated.
+
+(* Fetch: an integer-class spec (size 1/2/4/8) captures the low bytes of the word the SysV ABI assigns:
+   argN -> rdi,rsi,rdx,rcx,r8,r9 (N <= 6) or stack word N-6 (7 <= N <= 100); %reg / %stack+k directly. *)
+Theorem C09_fetch : forall inp s val w,
+  arg_word inp s = Some w -> lenN val = VAL_SIZE ->
+  s_size s = 1 \/ s_size s = 2 \/ s_size s = 4 \/ s_size s = 8 ->
+  takeN (ALIGN (s_size s) 4) (get_arg inp s val) = takeN (ALIGN (s_size s) 4) (le_bytes 8 w).
+Proof. exact fetch_word. Qed.
+Print Assumptions C09_fetch.
+
+(* ... but arg101..arg108 are taken for xmm0..xmm7 (register numbers alias) *)
+Theorem C09_fetch_arg101_refuted :
+  let inp := {| regs := [0; 0; 0; 0; 0; 0]; xmm := [0xdeadbeef]; stk := repeat 7 120; rets := []; strs := []; wrds := [] |} in
+  takeN 8 (get_arg inp (Sp 101 FAuto 8 TIndex 0) val0) = le_bytes 8 0xdeadbeef /\
+  takeN 8 (get_arg inp (Sp 100 FAuto 8 TIndex 0) val0) = le_bytes 8 7.
+Proof. exact arg101_reads_xmm0_refuted. Qed.
+Print Assumptions C09_fetch_arg101_refuted.
+
+(* Stores stay inside the per-frame buffer?  Refuted, with the exact extent proved: *)
+Theorem C09_within_argbuf_success_refuted :
+  let specs := [ {| s_idx := 30; s_fmt := FStruct; s_size := 1016; s_type := TStack; s_u := 1%Z; s_regs := []; s_name := [] |};
+                 spec_str 1 ] in
+  let st := run 0 (inp1 4096 [(4096, [97; 98])]) false specs in
+  result st = Some 1020 /\ m_hi st = ARGBUF_SIZE + 1.
+Proof. exact overflow_success_refuted. Qed.
+Print Assumptions C09_within_argbuf_success_refuted.
+
+Theorem C09_within_argbuf_scalars_refuted :
+  let st := run 0 (inp1 0 []) false (many_specs 100 ++ map (fun i => Sp 1 FHex 8 TStack (N.of_nat i)) (seq 1 40)) in
+  result st = None /\ m_hi st = ARGBUF_SIZE + 100.
+Proof. exact overflow_scalars_refuted. Qed.
+Print Assumptions C09_within_argbuf_scalars_refuted.
+
+(* without struct specs every store ends at most one byte behind the data accepted so far ... *)
+Theorem C09_store_extent : forall fill inp is_ret specs,
+  Forall no_struct specs -> m_hi (run fill inp is_ret specs) <= 4 + m_total (run fill inp is_ret specs) + 1.
+Proof. exact store_extent. Qed.
+Print Assumptions C09_store_extent.
+
+(* ... hence at most one byte past the buffer whenever the data is accepted *)
+Theorem C09_store_bound_success : forall fill inp is_ret specs n,
+  Forall no_struct specs -> result (run fill inp is_ret specs) = Some n ->
+  m_hi (run fill inp is_ret specs) <= ARGBUF_SIZE + 1.
+Proof. exact store_bound_success. Qed.
+Print Assumptions C09_store_bound_success.
+
+(* a string of exactly ARG_STR_MAX characters is recorded as 95 characters + "..." although it fits *)
+Theorem C09_len98_refuted :
+  let st := run 0 (inp1 4096 [(4096, s98)]) false [spec_str 1] in
+  payload st = Some (le_bytes 2 98 ++ repeat 65 95 ++ [46; 46; 46]) /\
+  ok_args [(spec_str 1, AStr s98)] (show_args [] [spec_str 1] (payload st)) = false.
+Proof. exact len98_refuted. Qed.
+Print Assumptions C09_len98_refuted.
+
+(* `arg1/c64,arg2/i32`: get_argspec_string steps over 4 of the 8 bytes, arg2 is shown from arg1's upper half *)
+Theorem C09_char64_refuted :
+  let specs := [Sp 1 FChar 8 TIndex 0; Sp 2 FSint 4 TIndex 0] in
+  let inp := {| regs := [0x1122334455667741; 7; 0; 0; 0; 0]; xmm := []; stk := []; rets := []; strs := []; wrds := [] |} in
+  let st := run 0 inp false specs in
+  show_args [] specs (payload st) = [40; 39; 65; 39; 44; 32] ++ dec 0x11223344 ++ [41] /\
+  ok_args [(Sp 1 FChar 8 TIndex 0, AInt 0x1122334455667741); (Sp 2 FSint 4 TIndex 0, AInt 7)]
+          (show_args [] specs (payload st)) = false.
+Proof. exact c64_refuted. Qed.
+Print Assumptions C09_char64_refuted.
+
+(* a stack struct of 18 bytes loses its last two bytes (mcount_memcpy4 copies len/4 words) *)
+Theorem C09_struct_tail_refuted :
+  let sp := {| s_idx := 1; s_fmt := FStruct; s_size := 18; s_type := TStack; s_u := 1%Z; s_regs := []; s_name := [] |} in
+  let inp := {| regs := []; xmm := []; stk := [0x0807060504030201; 0x100f0e0d0c0b0a09; 0x1817161514131211]; rets := []; strs := []; wrds := [] |} in
+  payload (run 0xA5 inp false [sp]) =
+  Some [1; 2; 3; 4; 5; 6; 7; 8; 9; 10; 11; 12; 13; 14; 15; 16; 0xA5; 0xA5; 0xA5; 0xA5].
+Proof. exact struct18_tail_lost_refuted. Qed.
+Print Assumptions C09_struct_tail_refuted.
